@@ -323,6 +323,78 @@ func menuFor(param, unit string, thorough bool) []string {
 	return []string{absent}
 }
 
+// ---- numeric boundary sweep (G2b) ----
+
+// boundarySet: the values every numeric request parameter is driven through singly (all other parameters at
+// their ordinary values): 0, +-1, the int64 extremes and their neighbours, +-5e18 (two of them differ by more than
+// an int64 of nanoseconds), numbers that only fit as text / floats, non-integers, and "now" spelled in every unit
+// a timestamp parameter might be read in (s, ms, us, ns).
+func boundarySet() []string {
+	return []string{"0", "1", "-1", "9223372036854775807", "-9223372036854775808", "9223372036854775808",
+		"5000000000000000000", "-5000000000000000000", "1e19", "-1e19", "1e400", "1.5", "-0.5", "0.000000001", "NaN", "Inf",
+		"NOW:s", "NOW:ms", "NOW:us", "NOW:ns", "1000000000", "1000000000000000000", "0x10", " 1", ""}
+}
+
+// overflowSet: the subset used for PAIRS of parameters (full product), chosen so that differences, sums and
+// quotients of two of them leave int64 / time.Duration.
+func overflowSet(thorough bool) []string {
+	if thorough {
+		return boundarySet()
+	}
+	return []string{"0", "-1", "1", "9223372036854775807", "-9223372036854775808", "5000000000000000000", "-5000000000000000000",
+		"1e19", "NOW:s", "NOW:ns"}
+}
+
+func durationBoundarySet() []string {
+	return []string{"0", "1ns", "-1ns", "9223372036854775807ns", "-9223372036854775808ns", "2562047h47m16.854775807s", "2562048h",
+		"1e19s", "1.5h", "NaN", "1", "-1", ""}
+}
+
+func isNumericParam(n string) bool {
+	switch n {
+	case "start", "end", "time", "step", "limit":
+		return true
+	}
+	return false
+}
+
+// boundaryCases: every numeric parameter singly over boundarySet, every pair of numeric parameters over the full
+// product of overflowSet, durations singly over durationBoundarySet; everything else at the ordinary values.
+func boundaryCases(r RouteSpec, thorough bool) []P {
+	var out []P
+	with := func(kv ...string) P {
+		p := defaultParams(r)
+		for i := 0; i+1 < len(kv); i += 2 {
+			p[kv[i]] = kv[i+1]
+		}
+		return p
+	}
+	var nums []string
+	for _, n := range r.Params {
+		switch {
+		case isNumericParam(n):
+			nums = append(nums, n)
+			for _, v := range boundarySet() {
+				out = append(out, with(n, v))
+			}
+		case n == "minDuration" || n == "maxDuration":
+			for _, v := range durationBoundarySet() {
+				out = append(out, with(n, v))
+			}
+		}
+	}
+	for i := 0; i < len(nums); i++ {
+		for j := i + 1; j < len(nums); j++ {
+			for _, a := range overflowSet(thorough) {
+				for _, b := range overflowSet(thorough) {
+					out = append(out, with(nums[i], a, nums[j], b))
+				}
+			}
+		}
+	}
+	return out
+}
+
 // resolve replaces the symbolic NOW values by numbers in the route's unit.
 func resolve(p P, unit string) P {
 	out := P{}
@@ -336,6 +408,14 @@ func resolve(p P, unit string) P {
 			v = nowIn(unit, -3600)
 		case "NOW-5s":
 			v = nowIn(unit, -5)
+		case "NOW:s":
+			v = nowIn("s", 0)
+		case "NOW:ms":
+			v = nowIn("ms", 0)
+		case "NOW:us":
+			v = strconv.FormatInt(runNow*1e6, 10)
+		case "NOW:ns":
+			v = nowIn("ns", 0)
 		}
 		out[k] = v
 	}
